@@ -135,6 +135,24 @@ class StrictExhaustive(Fam):
         return core.short_hash(inp) if warned or len({g for g in inp['gt']}) > 1 else None
 
 
+class DeepFork(Fam):
+    """family > genus (no threshold) > three species: matches in sibling branches fork at the threshold-less genus, while another
+    genome below the genus may only match the family above it"""
+    name = 'strict-deep-fork'
+    exhaustive = True
+    rule = ('forest F(thr hi) > G(no thr) > S(lo), T(lo), U(vlo) with one genome in each species: every threshold choice hi in {3,4}, lo in {1,2}, '
+            'vlo in {0,1} x every distance-rank triple in 0..4, under all 6 reference orders')
+
+    def inputs(self, ctx):
+        for hi in (3, 4):
+            for lo in (1, 2):
+                for vlo in (0, 1):
+                    for d in itertools.product(range(0, 5), repeat=3):
+                        yield dict(op='strict', parent=[0, 1, 2, 2, 2], thr=[hi, -1, lo, lo, vlo], gt=[5, 3, 4], d=list(d))
+
+    nontrivial = StrictExhaustive.nontrivial
+
+
 class StrictRandom(Fam):
     name = 'strict-classify-random'
     exhaustive = False
@@ -165,7 +183,7 @@ class StrictRandom(Fam):
     nontrivial = StrictExhaustive.nontrivial
 
 
-FAMILIES = [ConsensusAll, StrictExhaustive, StrictRandom]
+FAMILIES = [ConsensusAll, StrictExhaustive, DeepFork, StrictRandom]
 
 
 def run(ctx):
